@@ -52,7 +52,8 @@ def main():
                     print("skip (confirmation failed):", sd, conf)
                     continue
                 meta = json.load(open(os.path.join(sd, "meta.json")))
-                rnd = "r2-" if os.path.basename(wt.rstrip("/")).startswith("R2") else ""
+                _b = os.path.basename(wt.rstrip("/"))
+                rnd = "r2-" if _b.startswith("R2") else "r3-" if _b.startswith("R3") else ""
                 dst = os.path.join(VERIF, "seeded", "%s-%s%s" % (meta.get("property", os.path.basename(wt)), rnd, k))
                 os.makedirs(dst, exist_ok=True)
                 for f in ("patch.diff", "demo.diff"):
